@@ -22,6 +22,8 @@ TEMPLATES = {
     "cp1251-comment": ("## -*- coding: cp1251 -*-\n\u041f\u0440\u0438\u0432\u0435\u0442 ${a}\n", "cp1251"),
     # inner defs whose argument defaults are context names: every declaration order the code generator can choose must work
     "nested-defaults": '<%def name="o()"><%def name="i1(x=a)">${x}</%def><%def name="i2(y=b)">${y}</%def><%def name="i3(z=c)">${z}</%def>${i1()}${i2()}${i3()}${d}</%def>${o()}\n',
+    # an inner def whose name sorts before the context name its default reads (and one after): lookups first, defs second
+    "def-before-name": '<%def name="o()"><%def name="A0(x=b)">${x}</%def><%def name="zz(y=a)">${y}</%def>${A0()}${zz()}${c}</%def>${o()}\n',
     # sibling inner defs used as each other's argument defaults: declared in name order, whatever order the set yields them in
     "sibling-defaults": ('<%def name="o()"><%def name="a1()">A</%def><%def name="a2(x=a1)">${x()}2</%def><%def name="a3(y=a2)">${y()}3</%def>'
                          '<%def name="a4(z=a3)">${z()}4</%def>${a4()}${b}</%def>${o()}\n'),
